@@ -511,6 +511,7 @@ class Runner:
         cb = ['cbmc', gbi, '--json-ui', '--trace', '--verbosity', '4']
         if mode != 'exact': cb += ['--no-signed-overflow-check']
         if check.unwind: cb += ['--unwind', str(check.unwind), '--unwinding-assertions']
+        elif not check.loops: cb += ['--unwind', '7', '--unwinding-assertions']     # contracts without loop invariants cover loop-free code (and loops bounded by the constant D <= 6) only
         if check.objbits: cb += ['--object-bits', str(check.objbits)]
         cb += check.cbmc_flags
         r.cmd = ' '.join(['goto-cc --function harness check.c -o a.gb', '&&'] + cmd[:-2] + ['a.gb b.gb', '&&'] + ['cbmc b.gb [--sat-solver cadical | default minisat: first to finish]'] + cb[2:])
